@@ -133,8 +133,13 @@ impl ClvmGen {
                 V::A(b)
             }
             2 => {
-                let mut b = vec![0u8];
-                b.extend((1..n.max(2)).map(|_| r.random::<u8>()));
+                // one to three leading zero bytes (a path is read as an unsigned number: the padding changes nothing)
+                let mut b = vec![0u8; r.random_range(1..=3)];
+                if r.random_bool(0.5) {
+                    b.push(r.random_range(1..=0x7fu8));
+                } else {
+                    b.extend((1..n.max(2)).map(|_| r.random::<u8>()));
+                }
                 V::A(b)
             }
             3 => {
